@@ -52,6 +52,16 @@ def d1(ctx, F):
     ctx.check(("stream", "key:next_id") in keys and ("sink", "key:next_id") in keys and len(keys) == 2, "C02.D1.same-id", "reqrep:id-mismatch",
               "a requestor's stream and reply sink are registered under the same id counter value (inserts: %s)" % keys, p.span)
     nid = p.local_by_debug("next_id")
+    i1 = [c for c in p.calls() if strip_generics(c.callee) == "tokio_stream::stream_map::StreamMap::insert"]
+    i2 = [c for c in p.calls() if strip_generics(c.callee) == "selium_server::sink::router::Router::insert"]
+    wblocks = {i for i, j, pl, rv, s in p.assigns() if pl["l"] in nid and "*" in pl["p"]}
+    okb = len(i1) == 1 and len(i2) == 1
+    if okb:
+        a, b_ = (i1[0], i2[0]) if p.dominates(i1[0].bb, i2[0].bb) else (i2[0], i1[0])
+        fwd = flow.reach_avoiding(p, [a.target], [b_.bb])
+        between = {w for w in wblocks if w in fwd and b_.bb in flow.reach_avoiding(p, [w], [a.bb])}
+        okb = p.dominates(a.bb, b_.bb) and not between
+    ctx.check(okb, "C02.D1.same-id", "reqrep:id-changes-between-inserts", "the id counter is not modified between registering a requestor's stream and its reply sink", (i1 or i2 or [p])[0].span)
     writes = []
     for i, j, pl, rv, s in p.assigns():
         if pl["l"] in nid and "*" in pl["p"]:
